@@ -23,6 +23,11 @@ pub struct Dist {
 }
 
 fn build(d: &Dist, shard: usize) -> Option<Sealed> {
+    build_with(d, shard, 0)
+}
+
+/// `variant` changes only the genesis fee pool: same network, height and stakers, another header
+fn build_with(d: &Dist, shard: usize, variant: u128) -> Option<Sealed> {
     let stakes: Vec<(TxHash, StakeDoc)> = d
         .stakes
         .iter()
@@ -38,7 +43,7 @@ fn build(d: &Dist, shard: usize) -> Option<Sealed> {
         net: NetID::Custom02,
         init: CoinData { covhash: CovSpec::True.hash(), value: CoinValue(1 << 60), denom: Denom::Mel, additional_data: Default::default() },
         init_cov: CovSpec::True,
-        fee_pool: 0,
+        fee_pool: variant,
         fee_mult: 100,
         stakes,
     };
@@ -138,6 +143,30 @@ pub fn check_dist(d: &Dist, st: &mut Stats, shard: usize) -> Check {
         }
         st.class(if got { "confirmed" } else { "not-confirmed" });
     }
+    // a proof made of valid signatures over THIS state's header must not confirm a sibling state (same network,
+    // height and stakers, other contents) - also not after it has just confirmed this one
+    if d.sig_class == 0 && total > 0 {
+        if let Some(sib) = build_with(d, shard, 77) {
+            if sib.header().hash() != hh && sib.header().height == s.header().height {
+                let mut proof: ConsensusProof = BTreeMap::new();
+                for k in keys.iter() {
+                    proof.insert(pk(*k as usize), sk(*k as usize).sign(&hh.0).into());
+                }
+                let first = catch(|| s.confirm(proof.clone()).is_some()).unwrap_or(false);
+                let on_sibling = catch(|| sib.confirm(proof.clone()).is_some()).unwrap_or(false);
+                st.eval();
+                if on_sibling {
+                    viol!(
+                        "proof-for-another-state-confirms",
+                        "a proof signed by all stakers over one header (which it {}) also confirms a different state at the same height: stakes {:?}",
+                        if first { "confirms" } else { "does not confirm" },
+                        d.stakes
+                    );
+                }
+                st.class("sibling-state-not-confirmed-by-foreign-proof");
+            }
+        }
+    }
     // monotonicity over the subset lattice (valid signatures only)
     for (a, ga) in results.iter() {
         for (b, gb) in results.iter() {
@@ -193,7 +222,7 @@ pub fn run(ctx: &Ctx) -> (Outcome, String, Option<bool>) {
         |d, st, shard| check_dist(d, st, shard),
     );
     out.absorb(o);
-    let rule = format!("Enumerated: every assignment of weights {{1,2,3,5,10}} to 1-{} stakers with distinct keys, active from epoch 0, x every subset of signers with valid signatures (exhaustive: true refers to this sub-space). Sampled: 1-6 stakes over 5 keys (several per key), weights to 1000, stakes starting later or already ended, signer subsets, and signatures that are valid / bit-flipped / made by another key / over another header / truncated, plus a foreign signer. Oracle: an invalid signature => not confirmed; all valid and 3*present > 2*total => confirmed; 3*present < 2*total => not confirmed (equality unspecified); over the valid-signature subsets, adding a signer never turns confirmed into not confirmed. Non-trivial = proper non-empty signer subset with total > 0; distinct by (stakes, subset, signature class).", max_stakers);
+    let rule = format!("Enumerated: every assignment of weights {{1,2,3,5,10}} to 1-{} stakers with distinct keys, active from epoch 0, x every subset of signers with valid signatures (exhaustive: true refers to this sub-space). Sampled: 1-6 stakes over 5 keys (several per key), weights to 1000, stakes starting later or already ended, signer subsets, and signatures that are valid / bit-flipped / made by another key / over another header / truncated, plus a foreign signer. Oracle: an invalid signature => not confirmed; all valid and 3*present > 2*total => confirmed; 3*present < 2*total => not confirmed (equality unspecified); over the valid-signature subsets, adding a signer never turns confirmed into not confirmed. For every all-valid case a sibling state (same network, height and stakers, different fee pool) must not be confirmed by the proof that just confirmed the first state. Non-trivial = proper non-empty signer subset with total > 0; distinct by (stakes, subset, signature class).", max_stakers);
     (out, rule, Some(true))
 }
 
